@@ -153,6 +153,7 @@ impl Prop for C06Prop {
                     short(&b, 100)
                 ),
             );
+            f = f.fact(if o1.trim_end() == o2.trim_end() { "differ-only-in-blanks-at-eof" } else { "differ-before-eof" });
             if lim {
                 f = f.fact("log:iteration-limit");
             }
